@@ -5,6 +5,26 @@ HERE = os.path.dirname(os.path.dirname(os.path.abspath(__file__)))
 
 # id -> (category, technique, level text, level note, design ref)
 CHECKS = {
+ "C02": ("fault_enumeration",
+   "property-based testing with fault injection: generated durable-write sequences under all sync modes; crash images at every/stratified byte of the crashing call's log bytes and at every crash-point hook inside checkpoint()/rotate(); recovered state must equal one recorded observable state not older than the last acknowledged write; chains of up to 3 crashes",
+   "Generated put_durable/delete_durable/sync/checkpoint sequences over all key classes and value kinds run on a real durable TensorStore (immediate, batched and manual sync; normal and tiny log limits). The harness records the observable state (scan + get, bit-exact) after every call. At each generated crash point it builds crash images of the directory: the log cut at every byte (allcuts part / thorough) or at record boundaries +-1, header offsets and interior points of the bytes the call appended, and the directory exactly as it is at each crash_point hook inside checkpoint() and rotate(). TensorStore::recover runs on every image and must reproduce one of the recorded states from the last acknowledged call onwards; the generated image continues the chain with more writes and crashes.",
+   "Process-kill crash model: bytes that reached the files survive, user-space buffers are lost, the crashing call may leave any byte prefix of what it appended; a dropped fsync is invisible. Oracle is differential against the store's own in-memory observable state. Slab-dimension embeddings are generated >50% zeros so that checkpoints store them exactly (lossy long dense vectors are C07's). Known finding: log rotation drops acknowledged writes.",
+   "DESIGN.md section 1 C02"),
+ "C03": ("exploration",
+   "stateful property-based testing (proptest): message-level simulation of one real coordinator and 2-3 real participants with the harness as network and glue (deliver/drop/duplicate/reorder, sweeps, client aborts); decision/atomicity invariants after every step and store-vs-model comparison",
+   "Histories of up to 3 overlapping transactions over 2-3 shards are generated at message granularity over one real DistributedTxCoordinator and real TxParticipants (each with its own pre-seeded TensorStore): Prepare/vote/Commit/Abort messages are delivered in any order, dropped or duplicated, timeouts are swept (1 ms regime with sleeps in 20% of cases), commits are attempted at any time, clients abort. After every step: at most one decision kind per transaction, commit only with every shard's accepted Yes, no participant applies without a commit decision, no applied/rolled-back split, every shard's store equals an independent model (aborted and timed-out transactions change nothing).",
+   "The harness mirrors the reactions of cluster.rs / the TxHandler to each return value; participant-side unilateral cleanup is outside the quantifier. The model reads which transactions timed out from cleanup_timeouts (never predicts). Liveness is not asserted.",
+   "DESIGN.md section 1 C03"),
+ "C09": ("exploration",
+   "stateful property-based testing (proptest): statement-granular interleavings of up to 4 open relational transactions plus non-transactional statements and index DDL over two tables, against a before-image reference model; lock-expiry regimes asserted in the sound direction only",
+   "Programs of up to 40 (60) statements interleave up to four open transactions with plain statements, finished-handle calls and index creation/drops over two tables. After every step the lock table, transaction table, a full scan and every indexed read path (hash Eq, btree ranges, _id, AND combinations) are compared as multisets with a model that keeps per-transaction before-images (rollback = restore touched rows; shares nothing with the product's undo log). Statements matching rows locked by another open transaction must be refused with LockConflict and change nothing, and succeed after the holder ends; finished handles are refused. Two small regimes check lock expiry (0 s and 1 s timeouts) only after sleeping past the deadline.",
+   "One thread, statement granularity (each tx_* call takes its locks internally) - races inside one call are not explored. Plain select is compared with the in-place (read-uncommitted) image. Statements touching another transaction's uncommitted inserts are skipped and counted.",
+   "DESIGN.md section 1 C09"),
+ "C12": ("exploration",
+   "stateful property-based testing (proptest) of LockManager/WaitForGraph/coordinator/participant call sequences against a reference lock table; exhaustive enumeration of all digraphs on <=5 transactions against an independent transitive-closure cycle test; real-thread stress with an external mutual-exclusion monitor",
+   "Generated call sequences on LockManager + WaitForGraph, through DistributedTxCoordinator and through TxParticipant are compared after every call with a reference lock table (grant iff no requested key is held by another unexpired transaction, all-or-nothing grants, nothing held or waiting after commit/abort/timeout, serialisation round trip). Every digraph on 2-5 transactions (1 052 740 graphs, exhaustive) and random 3-8-node histories are fed through add_wait/remove_wait/remove_transaction and cycle detection, victims and would_create_cycle are checked against a transitive-closure reference. Two expiry regimes assert only that an expired lock is gone after sleeping past the timeout. A real-thread stress pass records grant histories checked by an owner-cell monitor.",
+   "Method calls hold the lock tables for their whole body, so call-granular interleaving in one thread equals the thread interleaving space; the stress pass is probabilistic. Victim policies depending on wall-clock wait starts are not checked. Wait-for edges are checked as an upper bound plus consistency, not for equality.",
+   "DESIGN.md section 1 C12"),
  "C13": ("fault_enumeration",
    "property-based testing with fault injection: generated coordinator call scripts; TxWal cut at every byte of each crashing call; recovered coordinator compared with an independent reference classification and driven to completion; chains of up to 3 crashes",
    "Generated scripts of begin / votes (duplicate, late, contradicting, foreign shard) / commit / abort / complete_* / sweeps / recover() drive a real DistributedTxCoordinator with a TxWal. At each generated crash call the log is cut at EVERY byte the call wrote; for each prefix a fresh coordinator runs recover_from_wal and is compared with the harness's own classification of the records wholly inside the prefix (completed => not pending and not reversible; Prepared/Committing/Aborting => pending with exactly the accepted votes and drivable to completion; still preparing => forgotten; no locks). The generated cut continues the chain (appends after a torn tail, further crashes); the whole surviving log never holds two different completions for one transaction; an acknowledged commit()/abort() has its TxComplete record in the log on return.",
